@@ -8,8 +8,8 @@
    Submit / Start / Shutdown / ShutdownNow callers, any interleaving of their statements and of the
    workers' statements, timers firing and contexts being cancelled at any point, tasks finishing,
    panicking or blocking for ever) and over every configuration the constructor accepts
-   ([pvalid P]; both values of the two fix flags, i.e. the bounds also hold for the code before the
-   two `fix:` commits).  Trusted: the specifications of the run-time primitives stated at the top of
+   ([pvalid P]; all values of the three fix flags, i.e. the bounds also hold for the code before the
+   three `fix:` commits).  Trusted: the specifications of the run-time primitives stated at the top of
    PoolModel.v.  Not modelled: int32 wrap-around of the counters (2^31 workers), IEEE rounding of the
    backlog rate (rates are rationals; NaN is outside the model), States(). *)
 From Ekit Require Import Common Conc PoolModel PoolProof PoolProof2 PoolProof3 PoolProof4 PoolExamples.
@@ -132,9 +132,9 @@ Theorem constructor_rejects : forall initGo queueSize opts,
 Proof. exact constructor_rejects_lemma. Qed.
 Print Assumptions constructor_rejects.
 
-Theorem constructor_accepts_valid : forall initGo queueSize opts i c m q rn rd fa fb base,
+Theorem constructor_accepts_valid : forall initGo queueSize opts i c m q rn rd fa fb base fc,
   pool_new initGo queueSize opts = CtOk i c m q rn rd -> 0 < rd ->
-  valid_params (mkPar i c m q rn rd fa fb base).
+  valid_params (mkPar i c m q rn rd fa fb base fc).
 Proof. exact constructor_ok_valid. Qed.
 Print Assumptions constructor_accepts_valid.
 
